@@ -543,14 +543,105 @@ func (rw *rewriter) pre(c *astutil.Cursor) bool {
 			// a defined channel type becomes an alias of the modelled
 			// channel (defined pointer types cannot carry methods)
 			if n.Assign == token.NoPos {
-				if named, ok := rw.info.Defs[n.Name].Type().(*types.Named); ok && named.NumMethods() > 0 {
-					rw.fail(n, "defined channel type with methods is not supported")
-				}
+				// (its methods, if any, become plain functions: see chanMethod)
 				n.Assign = n.Name.End()
 			}
 		}
 	}
 	return true
+}
+
+// chanMethod: a defined channel type becomes an alias of *vrt.Chan[T] and an
+// alias cannot carry methods. A method M of such a type T is therefore turned
+// into the function vchan_T_M with the receiver as first parameter, and every
+// call x.M(a) into vchan_T_M(x, a). definedChan returns T's name when t is
+// (a pointer to) a defined type whose underlying type is a channel.
+func definedChan(t types.Type) (name string, ptr bool, ok bool) {
+	if p, isPtr := t.(*types.Pointer); isPtr {
+		t, ptr = p.Elem(), true
+	}
+	named, isNamed := t.(*types.Named)
+	if !isNamed {
+		return "", false, false
+	}
+	if _, isChan := named.Underlying().(*types.Chan); !isChan {
+		return "", false, false
+	}
+	return named.Obj().Name(), ptr, true
+}
+
+func chanMethodName(typ, method string) string {
+	if ast.IsExported(method) && ast.IsExported(typ) {
+		return "Vchan_" + typ + "_" + method // callable from other packages, as the method was
+	}
+	return "vchan_" + typ + "_" + method
+}
+
+// rewriteChanMethodDecl turns `func (b T) M(args)` into `func vchan_T_M(b T, args)`.
+func (rw *rewriter) rewriteChanMethodDecl(fd *ast.FuncDecl) {
+	if fd.Recv == nil || len(fd.Recv.List) != 1 {
+		return
+	}
+	tv, ok := rw.info.Types[fd.Recv.List[0].Type]
+	if !ok {
+		return
+	}
+	name, _, ok := definedChan(tv.Type)
+	if !ok {
+		return
+	}
+	recv := fd.Recv.List[0]
+	if len(recv.Names) == 0 {
+		recv.Names = []*ast.Ident{ast.NewIdent("_")}
+	}
+	fd.Type.Params.List = append([]*ast.Field{recv}, fd.Type.Params.List...)
+	fd.Recv = nil
+	fd.Name = ast.NewIdent(chanMethodName(name, fd.Name.Name))
+}
+
+// chanMethodCall reports the replacement of a call x.M(...) on a defined channel type.
+func (rw *rewriter) chanMethodCall(n *ast.CallExpr) (fun ast.Expr, recv ast.Expr, ok bool) {
+	sel, isSel := n.Fun.(*ast.SelectorExpr)
+	if !isSel {
+		return nil, nil, false
+	}
+	s, found := rw.info.Selections[sel]
+	if !found || s.Kind() != types.MethodVal {
+		return nil, nil, false
+	}
+	fn, isFn := s.Obj().(*types.Func)
+	if !isFn {
+		return nil, nil, false
+	}
+	sig := fn.Type().(*types.Signature)
+	if sig.Recv() == nil {
+		return nil, nil, false
+	}
+	name, wantPtr, isChan := definedChan(sig.Recv().Type())
+	if !isChan {
+		return nil, nil, false
+	}
+	recv = sel.X
+	_, havePtr := s.Recv().(*types.Pointer)
+	switch {
+	case wantPtr && !havePtr:
+		recv = &ast.UnaryExpr{Op: token.AND, X: recv}
+	case !wantPtr && havePtr:
+		recv = &ast.StarExpr{X: recv}
+	}
+	fun = ast.NewIdent(chanMethodName(name, fn.Name()))
+	if fn.Pkg() != nil && fn.Pkg().Path() != rw.pkg.PkgPath {
+		// a method of another package's channel type: qualify with the name
+		// this file imports that package under
+		local := fn.Pkg().Name()
+		for _, imp := range rw.file.Imports {
+			if strings.Trim(imp.Path.Value, `"`) == fn.Pkg().Path() && imp.Name != nil {
+				local = imp.Name.Name
+			}
+		}
+		fun = &ast.SelectorExpr{X: ast.NewIdent(local), Sel: ast.NewIdent(chanMethodName(name, fn.Name()))}
+	}
+	return fun, recv, true
 }
 
 func (rw *rewriter) isChanType(e ast.Expr) bool {
@@ -581,7 +672,14 @@ func (rw *rewriter) post(c *astutil.Cursor) bool {
 		} else {
 			c.Replace(method(n.X, "Recv"))
 		}
+	case *ast.FuncDecl:
+		rw.rewriteChanMethodDecl(n)
 	case *ast.CallExpr:
+		if fun, recv, ok := rw.chanMethodCall(n); ok {
+			n.Fun = fun
+			n.Args = append([]ast.Expr{recv}, n.Args...)
+			return true
+		}
 		switch {
 		case rw.makeChan[n]:
 			// Args[0] has already been rewritten to *vrt.Chan[T]
